@@ -296,11 +296,11 @@ def main(chk):
     # ------------------------------------------------------------------ 4. ExecOnce.tla: all interleavings
     try:
         X = _schedules(chk, rng, tree, quick, nproc)
-    except ED.Watchdog as e:
-        # the scheduler cannot follow this tree (a yield point moved / a thread got stuck).  That is a machinery failure unless
-        # the histories part has already shown a divergence, in which case that verdict stands.
+    except Exception as e:
+        # the scheduler cannot follow this tree (a thread got stuck, the scratch tree disappeared, ...).  That is a machinery failure
+        # unless the histories part has already shown a divergence, in which case that verdict stands.
         if not chk.violations:
-            chk.machinery(str(e))
+            raise
         return chk.finish(dict(states=len(sdig), transitions=len(edig), events_edges_replayed=sum(x["edges"] for x in res),
                                schedules_skipped=str(e)[:200], samples=[s_ for x in res[:1] for s_ in x["samples"]],
                                distinct_nontrivial=sum(x["nontriv"] for x in res), evaluations=sum(x["steps"] for x in res) + ssteps,
